@@ -4,9 +4,9 @@ namespace Netpoll.Buf.Own
 open Netpoll.Buf
 
 /-- what every method lemma delivers: blocks extended, `Core` again, the buffer's caches fine -/
-def Tri (cfg : Cfg) (s s' : Ledger) (b' : Buf) : Prop := Ext s s' ∧ Core cfg s' ∧ BufOK cfg s' b'
+def Tri (cfg : Cfg) (st : Bool) (s s' : Ledger) (b' : Buf) : Prop := Ext s s' ∧ Core cfg st s' ∧ BufOK cfg s' b'
 
-theorem Tri.same {cfg : Cfg} {s : Ledger} {b : Buf} (hc : Core cfg s) (hb : BufOK cfg s b) : Tri cfg s s b :=
+theorem Tri.same {cfg : Cfg} {st : Bool} {s : Ledger} {b : Buf} (hc : Core cfg st s) (hb : BufOK cfg s b) : Tri cfg st s s b :=
   ⟨Ext.refl s, hc, hb⟩
 
 theorem consumeLen_ok {cfg : Cfg} {s : Ledger} {b : Buf} (n : Nat) (hb : BufOK cfg s b) : BufOK cfg s (b.consumeLen n) := by
@@ -46,11 +46,11 @@ theorem isSingleNode_spec {s : Ledger} {b b' : Buf} {n i : Nat} {nd : NodeS} {f 
           obtain ⟨rfl, rfl, rfl, _⟩ := h
           exact ⟨hn, rfl, rfl, rfl⟩
 
-theorem onReadSuffix_spec {cfg : Cfg} {s s' : Ledger} {b b' : Buf}
+theorem onReadSuffix_spec {cfg : Cfg} {st : Bool} {s s' : Ledger} {b b' : Buf}
     {loop : List (Nat × NodeS) → Option (List (Nat × NodeS) × Nat)}
     (hl : ∀ l l' k, loop l = some (l', k) → SzL l l')
-    (hc : Core cfg s) (h : onReadSuffix s b loop = some (s', b')) :
-    Core cfg s' ∧ s'.blocks = s.blocks ∧ s'.log = s.log ∧ b'.caches = b.caches ∧ b'.cachePeek = b.cachePeek := by
+    (hc : Core cfg st s) (h : onReadSuffix s b loop = some (s', b')) :
+    Core cfg st s' ∧ s'.blocks = s.blocks ∧ s'.log = s.log ∧ b'.caches = b.caches ∧ b'.cachePeek = b.cachePeek := by
   unfold onReadSuffix at h
   split at h
   · cases h
@@ -63,8 +63,8 @@ theorem onReadSuffix_spec {cfg : Cfg} {s s' : Ledger} {b b' : Buf}
       exact ⟨putAll_sz_core hc hr (hl _ _ _ hk), (putAll_blocks _ _).1, (putAll_blocks _ _).2.1, rfl, rfl⟩
 
 /-- a write into a block that is not caller memory is a fine event -/
-theorem evOK_write {cfg : Cfg} {s : Ledger} {blk lo hi : Nat} {bl : Block} (h : s.blocks[blk]? = some bl)
-    (hk : bl.kind ≠ .caller) : EvOK cfg s (.write blk lo hi) := ⟨bl, h, hk⟩
+theorem evOK_write {cfg : Cfg} {st : Bool} {s : Ledger} {blk lo hi : Nat} {bl : Block} (h : s.blocks[blk]? = some bl)
+    (hk : bl.kind ≠ .caller) : EvOK cfg st s (.write blk lo hi) := fun _ => ⟨bl, h, hk⟩
 
 theorem BlkOK.not_caller {cfg : Cfg} {s : Ledger} {b cap : Nat} (h : BlkOK cfg s b cap) :
     ∃ bl : Block, s.blocks[b]? = some bl ∧ bl.kind ≠ .caller := by
@@ -72,8 +72,8 @@ theorem BlkOK.not_caller {cfg : Cfg} {s : Ledger} {b cap : Nat} (h : BlkOK cfg s
   refine ⟨bl, h1, ?_⟩
   rcases h2 with h2 | ⟨h2, _⟩ <;> rw [h2] <;> decide
 
-theorem next_typed {cfg : Cfg} {s s' : Ledger} {id : Nat} {b b' : Buf} {n : Int} (hc : Core cfg s) (hb : BufOK cfg s b)
-    (h : next cfg s id b n = some (s', b')) : Tri cfg s s' b' := by
+theorem next_typed {cfg : Cfg} {st : Bool} {s s' : Ledger} {id : Nat} {b b' : Buf} {n : Int} (hc : Core cfg st s) (hb : BufOK cfg s b)
+    (h : next cfg s id b n = some (s', b')) : Tri cfg st s s' b' := by
   unfold next at h
   split at h
   · cases h; exact Tri.same hc hb
@@ -151,9 +151,9 @@ theorem retirePeek_ok {cfg : Cfg} {s : Ledger} {b : Buf} (n : Nat) (hb : BufOK c
     · exact hb
   · exact hb
 
-theorem peekFill_typed {cfg : Cfg} {s s1 s' : Ledger} {id : Nat} {b b' : Buf} {n blk l cp : Nat}
-    (e1 : Ext s s1) (c1 : Core cfg s1) (hb : BufOK cfg s b) (hk : CacheOK cfg s1 blk cp)
-    (hh : peekFill s1 id b n blk l cp = some (s', b')) : Tri cfg s s' b' := by
+theorem peekFill_typed {cfg : Cfg} {st : Bool} {s s1 s' : Ledger} {id : Nat} {b b' : Buf} {n blk l cp : Nat}
+    (e1 : Ext s s1) (c1 : Core cfg st s1) (hb : BufOK cfg s b) (hk : CacheOK cfg s1 blk cp)
+    (hh : peekFill s1 id b n blk l cp = some (s', b')) : Tri cfg st s s' b' := by
   have hbk : ∀ l', BufOK cfg s1 { b with cachePeek := some (blk, l', cp) } := fun l' =>
     ⟨(hb.ext e1).caches, fun x y z hx => by cases hx; exact hk⟩
   unfold peekFill at hh
@@ -172,8 +172,8 @@ theorem peekFill_typed {cfg : Cfg} {s s1 s' : Ledger} {id : Nat} {b b' : Buf} {n
         exact ⟨e1.trans (Ext.of_blocks_eq (by rw [addView_blocks]; rfl)), addView_core c2,
           (hbk l').ext (Ext.of_blocks_eq (by rw [addView_blocks]; rfl))⟩
 
-theorem peek_typed {cfg : Cfg} {s s' : Ledger} {id : Nat} {b b' : Buf} {n : Int} (hc : Core cfg s) (hb : BufOK cfg s b)
-    (h : peek cfg s id b n = some (s', b')) : Tri cfg s s' b' := by
+theorem peek_typed {cfg : Cfg} {st : Bool} {s s' : Ledger} {id : Nat} {b b' : Buf} {n : Int} (hc : Core cfg st s) (hb : BufOK cfg s b)
+    (h : peek cfg s id b n = some (s', b')) : Tri cfg st s s' b' := by
   unfold peek at h
   split at h
   · cases h; exact Tri.same hc hb
@@ -197,8 +197,8 @@ theorem peek_typed {cfg : Cfg} {s s' : Ledger} {id : Nat} {b b' : Buf} {n : Int}
         · obtain ⟨e1, c1, _, bl, g1, g2, g3⟩ := mallocMem_spec (cfg := cfg) (s := s) n.toNat hc
           exact peekFill_typed e1 c1 hb3 ⟨bl, g1, g2, g3⟩ h
 
-theorem skip_typed {cfg : Cfg} {s s' : Ledger} {b b' : Buf} {n : Int} (hc : Core cfg s) (hb : BufOK cfg s b)
-    (h : skip s b n = some (s', b')) : Tri cfg s s' b' := by
+theorem skip_typed {cfg : Cfg} {st : Bool} {s s' : Ledger} {b b' : Buf} {n : Int} (hc : Core cfg st s) (hb : BufOK cfg s b)
+    (h : skip s b n = some (s', b')) : Tri cfg st s s' b' := by
   unfold skip at h
   split at h
   · cases h; exact Tri.same hc hb
@@ -208,23 +208,23 @@ theorem skip_typed {cfg : Cfg} {s s' : Ledger} {b b' : Buf} {n : Int} (hc : Core
     · obtain ⟨c2, k1, _, k3, k4⟩ := onReadSuffix_spec (fun l l' k => skipLoop_sz l _) hc h
       exact ⟨Ext.of_blocks_eq k1, c2, ((consumeLen_ok _ hb).of_caches_eq k3 k4).ext (Ext.of_blocks_eq k1)⟩
 
-theorem readByte_typed {cfg : Cfg} {s s' : Ledger} {b b' : Buf} (hc : Core cfg s) (hb : BufOK cfg s b)
-    (h : readByte s b = some (s', b')) : Tri cfg s s' b' := by
+theorem readByte_typed {cfg : Cfg} {st : Bool} {s s' : Ledger} {b b' : Buf} (hc : Core cfg st s) (hb : BufOK cfg s b)
+    (h : readByte s b = some (s', b')) : Tri cfg st s s' b' := by
   unfold readByte at h
   split at h
   · cases h; exact Tri.same hc hb
   · obtain ⟨c2, k1, _, k3, k4⟩ := onReadSuffix_spec (fun l l' k => readByteLoop_sz l) hc h
     exact ⟨Ext.of_blocks_eq k1, c2, ((consumeLen_ok _ hb).of_caches_eq k3 k4).ext (Ext.of_blocks_eq k1)⟩
 
-theorem untilIdx_typed {cfg : Cfg} {s s' : Ledger} {id : Nat} {b b' : Buf} {idx : Int} (hc : Core cfg s) (hb : BufOK cfg s b)
-    (h : untilIdx cfg s id b idx = some (s', b')) : Tri cfg s s' b' := by
+theorem untilIdx_typed {cfg : Cfg} {st : Bool} {s s' : Ledger} {id : Nat} {b b' : Buf} {idx : Int} (hc : Core cfg st s) (hb : BufOK cfg s b)
+    (h : untilIdx cfg s id b idx = some (s', b')) : Tri cfg st s s' b' := by
   unfold untilIdx at h
   split at h
   · cases h; exact Tri.same hc hb
   · exact next_typed hc hb h
 
-theorem readBinary_typed {cfg : Cfg} {s s' : Ledger} {id : Nat} {b b' : Buf} {n : Int} (hc : Core cfg s) (hb : BufOK cfg s b)
-    (h : readBinary s id b n = some (s', b')) : Tri cfg s s' b' := by
+theorem readBinary_typed {cfg : Cfg} {st : Bool} {s s' : Ledger} {id : Nat} {b b' : Buf} {n : Int} (hc : Core cfg st s) (hb : BufOK cfg s b)
+    (h : readBinary s id b n = some (s', b')) : Tri cfg st s s' b' := by
   unfold readBinary at h
   split at h
   · cases h; exact Tri.same hc hb
@@ -263,22 +263,22 @@ theorem readBinary_typed {cfg : Cfg} {s s' : Ledger} {id : Nat} {b b' : Buf} {n 
             Ext.of_blocks_eq (by rw [addView_blocks]; exact k1)
           exact ⟨e1.trans e2, addView_core c3, (((hb1.of_caches_eq h1 h2).ext e1).of_caches_eq k3 k4).ext e2⟩
 
-theorem freeCaches_spec {cfg : Cfg} : ∀ (l : List Nat) {s : Ledger}, Core cfg s → (∀ blk ∈ l, ∃ cp : Nat, CacheOK cfg s blk cp) →
-    Ext s (freeCaches cfg s l) ∧ Core cfg (freeCaches cfg s l)
+theorem freeCaches_spec {cfg : Cfg} {st : Bool} : ∀ (l : List Nat) {s : Ledger}, Core cfg st s → (∀ blk ∈ l, ∃ cp : Nat, CacheOK cfg s blk cp) →
+    Ext s (freeCaches cfg s l) ∧ Core cfg st (freeCaches cfg s l)
   | [], s, hc, _ => ⟨Ext.refl s, hc⟩
   | blk :: rest, s, hc, h => by
     unfold freeCaches
     obtain ⟨cp, bl, g1, g2, g3⟩ := h blk List.mem_cons_self
     simp only [g1]
-    have c1 : Core cfg (s.freeMem cfg (some blk) bl.cap) :=
+    have c1 : Core cfg st (s.freeMem cfg (some blk) bl.cap) :=
       freeMem_core hc (fun b hb => by cases hb; exact ⟨bl, g1, by rw [g2]; exact g3⟩)
     have e1 := freeMem_ext cfg s (some blk) bl.cap
     obtain ⟨e2, c2⟩ := freeCaches_spec rest c1 (fun x hx => by
       obtain ⟨cp', hh⟩ := h x (List.mem_cons_of_mem _ hx); exact ⟨cp', hh.ext e1⟩)
     exact ⟨e1.trans e2, c2⟩
 
-theorem releaseCore_typed {cfg : Cfg} {s s' : Ledger} {b b' : Buf} (hc : Core cfg s) (hb : BufOK cfg s b)
-    (h : releaseCore cfg s b = some (s', b')) : Tri cfg s s' b' := by
+theorem releaseCore_typed {cfg : Cfg} {st : Bool} {s s' : Ledger} {b b' : Buf} (hc : Core cfg st s) (hb : BufOK cfg s b)
+    (h : releaseCore cfg s b = some (s', b')) : Tri cfg st s s' b' := by
   unfold releaseCore at h
   split at h
   · cases h
@@ -299,14 +299,14 @@ theorem releaseCore_typed {cfg : Cfg} {s s' : Ledger} {b b' : Buf} (hc : Core cf
           | some q =>
             obtain ⟨blk, l, cp⟩ := q
             simp only
-            have c3 : Core cfg ((freeCaches cfg s1 b.caches).freeMem cfg (some blk) cp) :=
+            have c3 : Core cfg st ((freeCaches cfg s1 b.caches).freeMem cfg (some blk) cp) :=
               freeMem_core c2 (fun x hx => by cases hx; exact ((hb.peek blk l cp hp).ext e12).blkOK)
             exact ⟨e12.trans (freeMem_ext _ _ _ _), c3, BufOK.empty rfl rfl⟩
 
 theorem endViews_ext (s : Ledger) (o : Nat) : Ext s (s.endViews o) := Ext.of_blocks_eq rfl
 
-theorem release_typed {cfg : Cfg} {s s' : Ledger} {id : Nat} {b b' : Buf} (hc : Core cfg s) (hb : BufOK cfg s b)
-    (h : release cfg s id b = some (s', b')) : Tri cfg s s' b' := by
+theorem release_typed {cfg : Cfg} {st : Bool} {s s' : Ledger} {id : Nat} {b b' : Buf} (hc : Core cfg st s) (hb : BufOK cfg s b)
+    (h : release cfg s id b = some (s', b')) : Tri cfg st s s' b' := by
   unfold release at h
   split at h
   · cases h
